@@ -12,6 +12,7 @@ import (
 	"fmt"
 	"runtime/debug"
 	"sync/atomic"
+	_ "unsafe" // go:linkname
 )
 
 // OpKind describes what a thread is about to do when it hands control back.
@@ -39,6 +40,7 @@ type Lockable interface {
 }
 
 type Thread struct {
+	goid     uint64
 	ID       int
 	Name     string
 	wake     chan struct{}
@@ -104,6 +106,8 @@ func (s *Sched) Go(name string, body func()) {
 	s.threads = append(s.threads, t)
 
 	go func() {
+		t.goid = goid()
+
 		<-t.wake
 
 		defer func() {
@@ -293,6 +297,7 @@ func Yield(loc string) {
 		return
 	}
 
+	notForeign(t, loc)
 	s.handOver(t, OpYield, loc, nil)
 }
 
@@ -314,7 +319,21 @@ func LockPoint(op OpKind, l Lockable, loc string) bool {
 		return true
 	}
 
+	notForeign(t, loc)
 	s.handOver(t, op, loc, l)
 
 	return true
+}
+
+//go:linkname goid runtime.verifGoid
+func goid() uint64
+
+// notForeign stops the process when a goroutine that is not the running thread of the scheduler reaches a scheduling
+// point: the code under test started goroutines of its own inside a controlled execution, which the scheduler does not
+// model (their interleavings would not be explored and their lock operations would be taken for the running thread's).
+func notForeign(t *Thread, loc string) {
+	if t.goid != 0 && goid() != t.goid {
+		panic("vsched: a goroutine started by the code under test reached the scheduling point " + loc +
+			" inside a controlled execution; goroutines other than the scheduler's threads are not modelled")
+	}
 }
